@@ -4,9 +4,7 @@
   * `decode_encodeWith`: `ValidLayout L F → WFFile F → decode cfg (encodeWith L F) = .ok F` for a polyhedral target
     without topology check — chunks split into spans, any sufficient integer width, any handle offset, fixed or
     variable valence, float vertices when exact, skippable chunks, any padding ≤ 255, any file version, any chunk
-    order the cursor conditions allow.  Extra hypotheses: the file is shorter than 2^64 bytes and has at most
-    16 843 009 faces and cells (the reader's 32-bit `valence * count`; `ValidLayout` does not bound it — finding
-    O2-topo-valence-product-overflow).
+    order the cursor conditions allow.  Extra hypothesis: the file is shorter than 2^64 bytes.
   * `encodeWith_prefix_rejected`: no strict prefix of a valid layout's bytes reads Ok, for every configuration.
   Proof-only file (not imported by the judge).  Core only.
 -/
@@ -21,8 +19,8 @@ def Spec.isEof : Spec → Bool
   | _ => false
 
 /-- one admissible non-EOF piece of a layout: the reader follows the encoder's cursor -/
-theorem lstep (hk : cfg.kind = .poly) (ht : cfg.topoCheck = false) (hw : WF F) (hnf : F.faces.length ≤ 16843009)
-    (hnc : F.cells.length ≤ 16843009) (cur : Cur) (hcur : CurOk F cur) (pc : Piece) (hne : pc.spec.isEof = false)
+theorem lstep (hk : cfg.kind = .poly) (ht : cfg.topoCheck = false) (hw : WF F)
+    (cur : Cur) (hcur : CurOk F cur) (pc : Piece) (hne : pc.spec.isEof = false)
     (hok : pieceOk F cur pc = true) :
     processChunk cfg (stOf F cur) (chunkOf F cur pc).hdr (chunkOf F cur pc).payload = .ok (stOf F (curAfter F cur pc))
       ∧ CurOk F (curAfter F cur pc) := by
@@ -30,8 +28,8 @@ theorem lstep (hk : cfg.kind = .poly) (ht : cfg.topoCheck = false) (hw : WF F) (
   | dirp => exact lstep_dirp cfg F hw cur hcur pc hs hok
   | vert count enc => exact lstep_vert cfg F hw cur hcur pc count enc hs hok
   | edges count hEnc off => exact lstep_edges cfg F hw cur hcur pc count hEnc off hs hok
-  | faces count fixed valEnc hEnc off => exact lstep_faces cfg F hk ht hw hnf cur hcur pc count fixed valEnc hEnc off hs hok
-  | cells count fixed valEnc hEnc off => exact lstep_cells cfg F hk ht hw hnc cur hcur pc count fixed valEnc hEnc off hs hok
+  | faces count fixed valEnc hEnc off => exact lstep_faces cfg F hk ht hw cur hcur pc count fixed valEnc hEnc off hs hok
+  | cells count fixed valEnc hEnc off => exact lstep_cells cfg F hk ht hw cur hcur pc count fixed valEnc hEnc off hs hok
   | prop idx count => exact lstep_prop cfg F hw cur hcur pc idx count hs hok
   | skip ty version flags payload => exact lstep_skip cfg F cur hcur pc ty version flags payload hs hok
   | eof => rw [hs] at hne; cases hne
@@ -148,8 +146,8 @@ theorem finish_layout (hw : WF F) (cur : Cur) (hv : cur.v = F.pos.length) (he : 
     Nat.sub_self, List.replicate_zero, List.append_nil, ne_eq, not_true_eq_false, or_self, R_pure, hstor]
 
 /-- the payload readers follow the permissive encoder through a whole valid piece list -/
-theorem layout_run (hk : cfg.kind = .poly) (ht : cfg.topoCheck = false) (hw : WF F) (hnf : F.faces.length ≤ 16843009)
-    (hnc : F.cells.length ≤ 16843009) : ∀ (ps : List Piece) (cur : Cur), CurOk F cur → piecesOk F cur ps = true →
+theorem layout_run (hk : cfg.kind = .poly) (ht : cfg.topoCheck = false) (hw : WF F) :
+    ∀ (ps : List Piece) (cur : Cur), CurOk F cur → piecesOk F cur ps = true →
     ∃ s', runChunks cfg (stOf F cur) (chunksOf F cur ps) = .ok s' ∧ finish s' = .ok F := by
   intro ps
   induction ps with
@@ -166,22 +164,22 @@ theorem layout_run (hk : cfg.kind = .poly) (ht : cfg.topoCheck = false) (hw : WF
       simp only [chunksOf, runChunks]
       rw [processChunk_v0 _ _ _ _ hcv.1, hcv.2.2]
       simp [dispatch, hcv.2.1, stOf, R_pure]
-    · obtain ⟨hstep, hcur'⟩ := lstep cfg F hk ht hw hnf hnc cur hcur pc hne hok
+    · obtain ⟨hstep, hcur'⟩ := lstep cfg F hk ht hw cur hcur pc hne hok
       obtain ⟨s', hrun, hfin⟩ := ih _ hcur' hrest
       exact ⟨s', by simp only [chunksOf, runChunks, hstep]; exact hrun, hfin⟩
 
 /-- **C06, every permitted encoding**: a valid layout of a well-formed file reads back as that file (polyhedral
     target without topology check) -/
 theorem decode_encodeWith (hk : cfg.kind = .poly) (ht : cfg.topoCheck = false) (L : Layout)
-    (hwf : WFFile F = true) (hval : ValidLayout L F = true) (hsize : (encodeWith L F).length < 2 ^ 64)
-    (hnf : F.faces.length ≤ 16843009) (hnc : F.cells.length ≤ 16843009) : decode cfg (encodeWith L F) = .ok F := by
+    (hwf : WFFile F = true) (hval : ValidLayout L F = true) (hsize : (encodeWith L F).length < 2 ^ 64) :
+    decode cfg (encodeWith L F) = .ok F := by
   have hw := WF.of F hwf
   simp only [ValidLayout, Bool.and_eq_true, decide_eq_true_eq] at hval
   have henc : encodeWith L F = fileHeader L.fileVersion F ++ ((chunksOf F {} L.pieces).map ChunkD.bytes).flatten := by
     simp only [encodeWith, fileHeader, encodePieces_eq]
   have hfit := chunksOf_fits F L.pieces {} hval.2 (by
     rw [henc, List.length_append] at hsize; omega)
-  obtain ⟨s', hrun, hfin⟩ := layout_run cfg F hk ht hw hnf hnc L.pieces {} (curOk_init F) hval.2
+  obtain ⟨s', hrun, hfin⟩ := layout_run cfg F hk ht hw L.pieces {} (curOk_init F) hval.2
   unfold decode
   rw [henc, decodeStream_header_gen cfg F L.fileVersion hw (accepts_poly cfg F hk ht), loop_chunks cfg _ hfit,
     stOf_init, hrun]
